@@ -25,9 +25,13 @@ class ToyMulti(chi.MechanisticModel):
         self.calls = []          # tap: (parameters, times, with_sens)
         self.tap = False
         self.share_calls = False  # copies append to the same tap list
+        # {output index: (times, value)}: the output is `value` (inf, -inf,
+        # NaN) at those times, e.g. a log-concentration before the dose
+        self.singular = {}
 
     def copy(self):
         m = ToyMulti(self._n, self._out_names)
+        m.singular = dict(self.singular)
         m._s = self._s
         m._sel = None if self._sel is None else list(self._sel)
         m.tap = self.tap
@@ -70,6 +74,10 @@ class ToyMulti(chi.MechanisticModel):
         a, k, b = p[:n], p[n], p[n + 1]
         e = np.exp(-k * t)
         y = np.array([a[o] * e + b * t * (o + 1) for o in range(n)])
+        sing = [(o, np.isin(t, ts_), v) for o, (ts_, v) in
+                self.singular.items()]
+        for o, mask, v in sing:
+            y[o, mask] = v
         if not self._s:
             return y
         s = np.zeros((len(t), n, n + 2))
@@ -77,6 +85,8 @@ class ToyMulti(chi.MechanisticModel):
             s[:, o, o] = e
             s[:, o, n] = -t * a[o] * e
             s[:, o, n + 1] = t * (o + 1)
+        for o, mask, v in sing:
+            s[mask, o, :] = np.nan
         if self._sel is not None:
             s = s[:, :, self._sel]
         return y, s
